@@ -20,7 +20,7 @@ EXPLANATION = (
     "together with the one precondition of the voxel arithmetic that is visible in the code: periodic positions are wrapped into the primary cell before they are hashed, sorted and compared with the box edges.")
 NOT_DECIDED = ["the voxel range arithmetic of Voxels::getNeighbors (which voxels / x-ranges are visited)", "set equality with compute_distances near the cutoff", "triclinic cells whose minimum image needs the 27-image search (compute_neighbors wraps once)"]
 ASSUMPTIONS = ["unit cell vectors are in the lower-triangular form mdtraj produces"]
-FLOORS = {"C10-R1": 12, "C10-R2": 7, "C10-R3": 1, "C10-R4": 12}
+FLOORS = {"C10-R1": 12, "C10-R2": 7, "C10-R3": 1, "C10-R4": 12, "C10-R5": 4}
 
 NB = "mdtraj/geometry/src/neighbors.cpp"
 NL = "mdtraj/geometry/src/neighborlist.cpp"
@@ -44,6 +44,8 @@ def check(ctx):
         r2(ctx, cf)
         r3(ctx, cf)
         r4(ctx, cf)
+        ctx.rule("C10-R5", "voxel grid invariants: a voxel size is recomputed only from a positive extent; periodic y / z ranges are clamped to one period as the last adjustment before the loop")
+        r5_voxel_invariants(ctx, cf)
     finally:
         C.MEMBER_OBJECTS = False
 
@@ -267,3 +269,34 @@ def _ffi(ctx, cf, fn, rel, q, cname, tu, frame):
         if ok and isinstance(a, ast.Subscript) and frame is not None and p in ("xyz", "frame_xyz"):
             ok = _n(src(a)) == "xyz[%s,0,0]" % frame
         ctx.decide(ok, "C10-R4", c, rel, q, "%s arg %d -> %s" % (cname, k, p), "receives `%s`" % src(a)[:30], "parameter `%s` of %s receives `%s`" % (p, cname, src(a)[:40]))
+
+
+def r5_voxel_invariants(ctx, cf):
+    """Two invariants of the voxel grid that are visible in the code: a voxel size is never set to zero, and the periodic voxel ranges are clamped to one period after every other adjustment."""
+    ctor = cf.function(NL, "Voxels")
+    g = C.guards(ctor)
+    for ax, lo, hi in (("Y", "miny", "maxy"), ("Z", "minz", "maxz")):
+        asg = [n for n in C.walk(ctor) if n["kind"] == "BinaryOperator" and n.get("opcode") == "=" and _n(C.text(C.kids(n)[0])) in ("this.voxelSize%s" % ax, "voxelSize%s" % ax)
+               and _n(C.text(C.kids(n)[1])).replace("this.", "") == "((%s-%s)/ny)".replace("ny", "n" + ax.lower()) % (hi, lo)]
+        ok = bool(asg) and all(("(%s>%s)" % (hi, lo), True) in [(t.replace("this.", ""), p) for t, p in g.get(a["id"], [])] for a in asg)
+        ctx.decide(ok, "C10-R5", C.line(asg[0]) if asg else C.line(ctor), NL, "Voxels::Voxels", "voxelSize%s = (%s-%s)/n only when %s > %s" % (ax, hi, lo, hi, lo), "",
+                   "the non-periodic voxel size along %s is recomputed without the %s > %s guard: for atoms that share one %s coordinate it becomes 0 and every voxel index is garbage" % (ax.lower(), hi, lo, ax.lower()))
+    gn = cf.function(NL, "getNeighbors")
+    for ax in ("y", "z"):
+        loops = [n for n in C.walk(gn) if n["kind"] == "ForStmt" and _n(C.text(C.kids(n)[1])) == "(%s<=end%s)" % (ax, ax)]
+        if not loops:
+            ctx.undecided("C10-R5", C.line(gn), NL, "Voxels::getNeighbors", "%s voxel loop" % ax, "loop `for (%s = start%s; %s <= end%s; ...)` not found" % (ax, ax, ax, ax))
+            continue
+        lp = loops[0]
+        writes = [n for n in C.walk(gn) if n["kind"] in ("BinaryOperator", "CompoundAssignOperator") and n.get("opcode", "").endswith("=") and n.get("opcode") not in ("==", "<=", ">=", "!=")
+                  and C.ref_name(C.kids(n)[0]) in ("start" + ax, "end" + ax) and C.line(n) is not None and C.line(n) < C.line(lp)]
+        decls = [n for n in C.walk(gn) if n["kind"] == "VarDecl" and n.get("name") in ("start" + ax, "end" + ax)]
+        # only the writes that belong to this loop instance (after the declarations)
+        dl = max([C.line(d) for d in decls if C.line(d) < C.line(lp)] or [0])
+        writes = [w for w in writes if C.line(w) >= dl]
+        per = [w for w in writes if ("usePeriodic", True) in [(t.replace("this.", ""), p) for t, p in C.guards(gn).get(w["id"], [])]]
+        clamp = [w for w in per if _n(C.text(w)).replace("this.", "") == "(end%s=min(end%s,((start%s+n%s)-1)))" % (ax, ax, ax, ax)]
+        ok = len(clamp) == 1 and all(C.line(w) <= C.line(clamp[0]) for w in per)
+        ctx.decide(ok, "C10-R5", C.line(clamp[0]) if clamp else C.line(lp), NL, "Voxels::getNeighbors", "periodic %s range clamped to one period (end <= start + n - 1) after all other adjustments" % ax, "",
+                   "the clamp `end%s = min(end%s, start%s+n%s-1)` is %s: the loop can span more than n%s voxels and one voxel column is scanned twice (duplicate neighbours)"
+                   % (ax, ax, ax, ax, "missing" if not clamp else "followed by another write to start%s/end%s" % (ax, ax), ax))
